@@ -92,3 +92,43 @@ class FakePaths:
 
     def load_search_internal(self):
         return self.obj
+
+
+class ScriptedFitness:
+    """Stand-in for a Fitness object handed to AbstractInitializer.samples_from_model: what an
+    evaluation does is a deterministic function of the parameter vector.  `bands` partitions [0, 1)
+    (the fractional part of 7.3 * |first parameter|) into [lo, hi, kind] with kind in
+    value | fitexc | nan | low | neginf."""
+
+    def __init__(self, bands, delay=0.0):
+        self.bands = [(float(a), float(b), k) for a, b, k in bands]
+        self.delay = float(delay)
+
+    def kind_of(self, parameters):
+        frac = (abs(float(parameters[0])) * 7.3) % 1.0
+        for lo, hi, kind in self.bands:
+            if lo <= frac < hi:
+                return kind
+        return "value"
+
+    @staticmethod
+    def value_of(parameters):
+        return -sum((i + 1.0) * float(v) ** 2 for i, v in enumerate(parameters))
+
+    def outcome(self, parameters):
+        """What figure_of_metric returns: the value, or None."""
+        return self.value_of(parameters) if self.kind_of(parameters) == "value" else None
+
+    def __call__(self, parameters):
+        kind = self.kind_of(parameters)
+        if kind == "value" and self.delay and (abs(float(parameters[0])) * 3.1) % 1.0 < 0.5:
+            time.sleep(self.delay)              # some successful evaluations finish late
+        if kind == "fitexc":
+            raise af.exc.FitException("scripted")
+        if kind == "nan":
+            return float("nan")
+        if kind == "low":
+            return -1.0e99
+        if kind == "neginf":
+            return float("-inf")
+        return self.value_of(parameters)
